@@ -58,6 +58,21 @@ struct C05 : Scenario {
         // "after relaxation from any start": a fifth of the runs start far from equilibrium, so small that the start has
         // exactly-zero columns inside the region the stationary bunch occupies (float underflow beyond ~14 start sigmas)
         if (r.chance(0.2)) { c.zoom = std::round(r.uniform(0.15, 0.3) * 100) / 100; c.rotations += std::round(4 * Td); }   // (further to go: four more damping times)
+        else if (r.chance(0.12)) { c.zoom = std::round(r.uniform(1.6, 2.2) * 100) / 100; c.rotations += std::round(4 * Td); }  // broad starts (inside the 12-sigma grid to 2.7 sigma of the edge)
+        // coarse stepping on a fine grid with a strong (still stable) wake: the per-step wake kick at equilibrium exceeds one energy cell
+        if (!many && r.chance(tier == "quick" ? 0.05 : 0.08)) {
+            if (r.chance(0.5)) { kind = 2; p.seti("kind", 2); c.useCSR = false; c.collimator = 0; }
+            double uz = r.unit(); c.zoom = uz < 0.4 ? 1 : uz < 0.8 ? std::round(r.uniform(1.6, 2.2) * 100) / 100 : std::round(r.uniform(0.15, 0.3) * 100) / 100;
+            c.grid = r.range(224, 256); c.steps = r.range(50, 58);
+            if (kind == 2) { c.gap = 0.01; c.wallcond = std::round(r.uniform(1.4e6, 4e6)); c.currents = {r.uniform(6e-3, 1e-2)}; }   // a narrow, poorly conducting chamber: order-one distortion
+            else if (kind == 0) c.currents = {r.uniform(1e-3, 1.5e-3)}; else if (kind == 3) c.currents = {r.uniform(3e-3, 5e-3)};
+            // (the explicit Fokker-Planck scheme needs e1 = 2/(Td steps) below cell^2/2: a longer damping time, and a longer run)
+            double delta = c.pssize / (c.grid - 1), Tdmin = 2.0 / (0.4 * delta * delta * c.steps);
+            bool far = c.zoom <= 0.3 || c.zoom >= 1.5;
+            if (Td < Tdmin) { Td = 1.05 * Tdmin; c.rotations = std::round(9 * Td) + (far ? std::round(4 * Td) : 0); }
+            Derived d1 = derive(c); c.tdamp = Td / d1.fs;
+            p.seti("coarsefine", 1);
+        }
         c.to_plan(p);
         p.setu("entropy", r.u64());
         return p;
@@ -94,7 +109,29 @@ struct C05 : Scenario {
         // stationarity (a proviso of the property, not a verdict)
         double dl = 0, dp = 0;
         for (size_t k = nrec - 6; k < nrec; k++) { dl = std::max(dl, std::fabs(len[k] - len[nrec - 1])); dp = std::max(dp, std::fabs(pos[k] - pos[nrec - 1])); }
-        if (!(dl < 2e-4 && dp < 2e-4)) { o.discard("not stationary at the end (" + kind + ")"); o.probe("reach.discarded_not_stationary"); return o; }
+        if (!(dl < 2e-4 && dp < 2e-4)) {
+            // "after relaxation from any start": when the same machine started at the natural size IS stationary by a wide margin after
+            // the same time, while the run from the far start (which was given four more damping times) still moves five times more
+            // than the proviso allows, the far start failed to relax: that is judged, not discarded
+            bool far = cfg.zoom <= 0.3 || cfg.zoom >= 1.5;
+            if (far && (dl > 1e-3 || dp > 1e-3)) {
+                Cfg cn = cfg; cn.zoom = 1; cn.output = "near.h5";
+                Launch ln = make_launch(cn, rc.workdir, "near", plan.getu("entropy"), 0); ln.timeout_s = 900;
+                LaunchResult rn = run_launch(ln); o.launches++;
+                H5Snap sn = h5_read(rc.workdir + "/near.h5");
+                if (rn.exited && rn.code == 0 && sn.ok) {
+                    auto ln2 = sn.values("/BunchLength/data"), pn2 = sn.values("/BunchPosition/data");
+                    double dln = 0, dpn = 0;
+                    if (ln2.size() == nrec) for (size_t k = nrec - 6; k < nrec; k++) { dln = std::max(dln, std::fabs(ln2[k] - ln2[nrec - 1])); dpn = std::max(dpn, std::fabs(pn2[k] - pn2[nrec - 1])); }
+                    o.checks++; o.probe("reach.far_start_compared_with_natural_start");
+                    if (ln2.size() == nrec && dln < 5e-5 && dpn < 5e-5)
+                        o.fail("C05.relaxes_from_any_start", "started at " + fmt_g(cfg.zoom, 3) + " natural sizes the bunch is not stationary after " + fmt_g(cfg.rotations, 4) + " periods (length still moves by " + fmt_g(dl, 3) + ", position by " + fmt_g(dp, 3) +
+                               " over the last 5 periods) while the same machine started at the natural size is (" + fmt_g(dln, 3) + ", " + fmt_g(dpn, 3) + ") [" + kind + ", grid " + std::to_string(cfg.grid) + ", " + fmt_g(d.steps, 4) + " steps/period]");
+                }
+                if (!o.fails.empty()) return o;
+            }
+            o.discard("not stationary at the end (" + kind + ")"); o.probe("reach.discarded_not_stationary"); return o;
+        }
         if (!(std::fabs(pop[nrec - 1] - 1) < 0.05)) {
             // a proviso only when the distribution really reached the grid border at some time; charge that disappears inside the
             // grid is not excused: such a run is judged like any other
@@ -169,10 +206,12 @@ struct C05 : Scenario {
         std::string sh = (cfg.shiftx == 0 && cfg.shifty == 0) ? "centred" : cfg.shiftx == cfg.shifty ? "eq" : "uneq";
         o.probe("cls." + kind + "." + db + "." + sb + "." + sh + (n < 72 ? ".g<72" : n < 100 ? ".g<100" : ".g>=100") + ".ip" + std::to_string(cfg.interp));
         if (cfg.zoom <= 0.3) o.probe("reach.start_with_exact_zero_columns");
+        if (cfg.zoom >= 1.5) o.probe("reach.broad_start");
+        { double wm = 0; for (unsigned i = 0; i < n; i++) wm = std::max(wm, std::fabs((double)W[i])); if (wm > 1) o.probe("reach.per_step_wake_kick_exceeds_one_cell"); o.hints["wm"] = fmt_g(wm, 3); }
         if (spreadW >= 0.3) o.probe("reach.order_one_distortion");
         if (spreadW < 0.05) o.probe("reach.weak_distortion");
         o.nontrivial = spreadW >= 0.05;
-        o.sample = "D=" + fmt_g(spreadD, 4) + " Wd=" + fmt_g(spreadW, 4) + " lambda=" + o.hints["lambda"] + " ratio=" + fmt_g(spreadH / std::max(spreadG, 1e-9), 4) + " spreadH=" + fmt_g(spreadH, 4) + " spreadG=" + fmt_g(spreadG, 4) + " sE=" + fmt_g(se, 6) + ctx;
+        o.sample = "D=" + fmt_g(spreadD, 4) + " Wd=" + fmt_g(spreadW, 4) + " lambda=" + o.hints["lambda"] + " ratio=" + fmt_g(spreadH / std::max(spreadG, 1e-9), 4) + " spreadH=" + fmt_g(spreadH, 4) + " spreadG=" + fmt_g(spreadG, 4) + " sE=" + fmt_g(se, 6) + " maxkick=" + o.hints["wm"] + "cells" + ctx;
         return o;
     }
 
